@@ -739,6 +739,31 @@ def run_sync_variant(events, async_obs, cb_raises=False):
         drv.close()
 
 
+def streak_witnesses(lengths):
+    """fixed witnesses of the family 'unbounded runs of consecutive failures' (an outage of weeks): N failed attempts in
+    a row, each followed by the expiry of the retry timer.  Whatever the back-off is computed from (the previous delay,
+    a failure counter, a table), it has to stay a finite number in [0, max] for EVERY N: factor**N leaves the range of a
+    double at N = 710 (e) / 1475 (phi).  Variants: draws 0 / alternating +-1/2; a reset() every 97 failures; a
+    success + loss in the middle (the streak counter restarts); the streak ends with a success.
+    -> list of (name, events)"""
+    out = []
+    for n in lengths:
+        for variant in ("plain", "jitter", "resets", "restart", "then-ok"):
+            evs = [("start",)]
+            for i in range(n):
+                z = Fraction(0) if variant == "plain" else Fraction((-1) ** i, 2)
+                evs.append(("fail", z, i % 5))
+                if variant == "resets" and i % 97 == 96:
+                    evs.append(("reset",))
+                evs.append(("timer",))
+                if variant == "restart" and i == n // 2:
+                    evs += [("ok",), ("lost",), ("timer",)]
+            if variant == "then-ok":
+                evs += [("ok",), ("lost",), ("timer",), ("fail", Fraction(0), 1)]
+            out.append(("streak-%d-%s" % (n, variant), evs))
+    return out
+
+
 def dfs_real(depth, on_node):
     """pre-order enumeration of every sequence the real object permits, same order as Reconnector.dfs.
     on_node(path, observation, violation)"""
@@ -1271,3 +1296,337 @@ def run_real_history(rounds, stop_stage="connected"):
 def real_history_name(rounds, stop_stage):
     return " ; ".join("%s %s%s" % (",".join("%s@%d" % tuple(t) for t in rd["traffic"]) or "idle", rd["loss"],
                                    "+turn" if rd["turn_before_loss"] else "") for rd in rounds) + " ; stop while " + stop_stage
+
+
+# ------------------------------------------------------------------------- the Tub and ALL its Reconnectors
+# Tub-level events (lib/ReconnectorTub.v): ("connectTo",) ("startService",) ("stopService",) ("turn",)
+# ("rc", i, ev) with ev an atomic Reconnector event other than start: ("ok", script) ("fail", z, kind) ("lost",)
+# ("timer",) ("reset",) ("stop",).  A REAL Tub (connectTo / startService / stopService / _removeReconnector /
+# self.reconnectors are the real ones); only Tub.getReference is replaced on the instance by one that hands out
+# Deferreds the driver fires, and RemoteReferences are fakes whose disconnect watchers the driver fires.
+class TubRRef:
+    def __init__(self, drv, k):
+        self.drv, self.k = drv, k
+        self.watchers = []
+        self.lost = False
+        self.recon = 0
+
+    def notifyOnDisconnect(self, cb, *a, **kw):
+        r = getattr(cb, "__self__", None)
+        if isinstance(r, rc.Reconnector):
+            self.recon += 1
+            self.drv.note(self.drv.rcs.index(r), "watch")
+        self.watchers.append((cb, a, kw))
+
+    def lose(self):
+        self.lost = True
+        w, self.watchers = self.watchers, []
+        for cb, a, kw in w:
+            cb(*a, **kw)
+
+
+class TubDriver:
+    def __init__(self):
+        E.reset_clock()
+        self.saved = (rc.reactor, rc.time, rc.random, ev.reactor)
+        self.clock = task.Clock()
+        self.evclock = task.Clock()
+        self.rnd = ScriptedRandom()
+        rc.reactor = self.clock
+        rc.time = FakeTime(self.clock)
+        rc.random = self.rnd
+        ev.reactor = self.evclock
+        q = ev._theSimpleQueue
+        q._events, q._flushObservers, q._timer = [], [], None
+        self.net = E.Net()
+        ps = E.pems_sorted(2)
+        self.tubid = ps[1][0]
+        self.tub = unstarted_tub(self.net, "A", ps[0][1])
+        self.rcs = []               # the Reconnectors in creation order
+        self.urls = []
+        self.pending = {}           # url -> Deferreds handed out by getReference
+        self.rrefs = {}             # id -> TubRRefs given to Reconnector id
+        self.scripts = {}           # id -> what the user callback does next time
+        self.stop_returned = set()  # ids whose stopConnecting() has returned
+        self.stop_before_start = set()  # ... and whose first stopConnecting() came while still queued
+        self.tub_stopped = False    # Tub.stopService() has returned
+        self.late = []              # (id, what) done after its stopConnecting / Tub.stopService had returned
+        self.errors = []
+        self.n_logged = len(E.logged_errors)
+        self.n_later = 0
+        o_later = self.clock.callLater
+
+        def later(delay, f, *a, **kw):
+            r = getattr(f, "__self__", None)
+            if isinstance(r, rc.Reconnector) and r in self.rcs:
+                self.note(self.rcs.index(r), "timer")
+            return o_later(delay, f, *a, **kw)
+        self.clock.callLater = later
+
+        def getref(url):
+            k = self.urls.index(url)
+            self.note(k, "attempt")
+            d = defer.Deferred()
+            self.pending.setdefault(url, []).append(d)
+            return d
+        self.tub.getReference = getref
+
+    def close(self):
+        rc.reactor, rc.time, rc.random, ev.reactor = self.saved
+        q = ev._theSimpleQueue
+        q._events, q._flushObservers, q._timer = [], [], None
+        E.reset_clock()
+
+    def note(self, k, what):
+        if k in self.stop_returned or self.tub_stopped:
+            self.late.append((k, what))
+
+    def _cb(self, rref, k):
+        self.note(k, "callback")
+        for op in self.scripts.get(k, ()):
+            self.user_call(k, op)
+
+    def user_call(self, k, op):
+        r = self.rcs[k]
+        if op == "stop":
+            if r._tub is None and k not in self.stop_returned:
+                self.stop_before_start.add(k)
+            try:
+                r.stopConnecting()
+            finally:
+                self.stop_returned.add(k)
+        else:
+            r.reset()
+
+    # -- state of the real objects
+    def inflight(self, k):
+        return [d for d in self.pending.get(self.urls[k], []) if not d.called and d.callbacks]
+
+    def watched(self, k):
+        return [x for x in self.rrefs.get(k, []) if x.recon and not x.lost]
+
+    def timers(self, k):
+        return [c for c in self.clock.getDelayedCalls() if getattr(c.func, "__self__", None) is self.rcs[k]]
+
+    def queue(self):
+        out = []
+        for c in self.evclock.calls:
+            pass
+        for (cb, a, kw) in ev._theSimpleQueue._events:
+            r = getattr(cb, "__self__", None)
+            if isinstance(r, rc.Reconnector) and cb.__name__ == "startConnecting":
+                out.append(self.rcs.index(r))
+        return out
+
+    def shut(self):
+        return "startService" in self.tub.__dict__
+
+    def enabled(self, e):
+        n = e[0]
+        if n == "connectTo":
+            return not self.shut()
+        if n == "startService":
+            return not self.tub.running and not self.shut()
+        if n == "stopService":
+            return bool(self.tub.running) and not self.shut()
+        if n == "turn":
+            return bool(self.queue())
+        k, x = e[1], e[2]
+        if k >= len(self.rcs):
+            return False
+        if x[0] in ("ok", "fail"):
+            return bool(self.inflight(k))
+        if x[0] == "lost":
+            return bool(self.watched(k))
+        if x[0] == "timer":
+            return bool(self.timers(k))
+        return x[0] in ("reset", "stop")
+
+    def do(self, e):
+        """perform one Tub-level event -> did it raise (to the caller / the eventual queue / the Deferred)"""
+        n = e[0]
+        raised = False
+        before = len(self.errors)
+        try:
+            if n == "connectTo":
+                k = len(self.rcs)
+                url = "pb://%s@fake:nowhere:1/name%d" % (self.tubid, k)
+                self.urls.append(url)
+                o_init = rc.Reconnector.__init__
+                drv = self
+
+                def init(r, *a, **kw):          # so that the Reconnector is known before connectTo starts it
+                    o_init(r, *a, **kw)
+                    drv.rcs.append(r)
+                rc.Reconnector.__init__ = init
+                try:
+                    got = self.tub.connectTo(url, self._cb, k)
+                finally:
+                    rc.Reconnector.__init__ = o_init
+                assert got is self.rcs[k]
+            elif n == "startService":
+                self.tub.startService()
+            elif n == "stopService":
+                try:
+                    self.tub.stopService()
+                finally:
+                    self.tub_stopped = True
+            elif n == "turn":
+                q = ev._theSimpleQueue
+                # one queued startConnecting (the oldest), as one turn's worth of work
+                idx = [j for j, (cb, a, kw) in enumerate(q._events)
+                       if isinstance(getattr(cb, "__self__", None), rc.Reconnector)][0]
+                cb, a, kw = q._events.pop(idx)
+                try:
+                    cb(*a, **kw)
+                except Exception:
+                    raised = True       # foolscap.eventual logs it (log.err) and goes on
+            else:
+                k, x = e[1], e[2]
+                if x[0] == "ok":
+                    rr = TubRRef(self, k)
+                    self.rrefs.setdefault(k, []).append(rr)
+                    self.scripts[k] = tuple(x[1]) if len(x) > 1 else ()
+                    d = self.inflight(k)[0]
+                    d.addErrback(self.errors.append)
+                    d.callback(rr)
+                elif x[0] == "fail":
+                    self.rnd.z = float(x[1])
+                    d = self.inflight(k)[0]
+                    d.addErrback(self.errors.append)
+                    d.errback(make_failure(x[2]))
+                elif x[0] == "lost":
+                    self.watched(k)[0].lose()
+                elif x[0] == "timer":
+                    dc = self.rcs[k]._timer if self.rcs[k]._timer in self.timers(k) else self.timers(k)[0]
+                    self.clock.calls.remove(dc)
+                    dc.called = 1
+                    dc.func(*dc.args, **dc.kw)
+                else:
+                    self.user_call(k, x[0])
+        except Exception:
+            raised = True
+        if len(self.errors) > before:
+            raised = True
+        return raised
+
+    def observe(self, raised):
+        t = self.tub
+        lst = [self.rcs.index(r) for r in t.reconnectors] if hasattr(t, "reconnectors") else [-1]
+        fl = []
+        for k, r in enumerate(self.rcs):
+            tm = r._timer
+            ts = self.timers(k)
+            snap = dict(active=bool(r._active), stopped=getattr(r, "_stopped", None), tub=r._tub is not None,
+                        info=r.getReconnectionInfo().state, inflight=len(self.inflight(k)),
+                        watching=len(self.watched(k)), leaked=len(ts) - (1 if (tm and tm in ts) else 0))
+            fl.append(flags_of(snap))
+        head = (1 if raised else 0) + 2 * (1 if (t.running and not self.shut()) else 0) + 4 * (1 if self.shut() else 0)
+        return (head, lst, self.queue(), fl)
+
+
+def tev_json(e):
+    if e[0] == "rc":
+        x = e[2]
+        return ["rc", e[1], [x[0], list(x[1])] if x[0] == "ok" else ([x[0], str(x[1]), x[2]] if x[0] == "fail" else [x[0]])]
+    return [e[0]]
+
+
+def tev_name(e):
+    if e[0] == "rc":
+        x = e[2]
+        return "rc%d.%s%s" % (e[1], x[0], "{" + ",".join(x[1]) + "}" if x[0] == "ok" and len(x) > 1 and x[1] else "")
+    return e[0]
+
+
+def run_tub_history(events):
+    """run Tub-level events on a real Tub.  -> (observations, Violation or None, n_performed)"""
+    drv = TubDriver()
+    obs = []
+    viol = None
+    try:
+        with E.quiet():
+            for i, e in enumerate(events):
+                if not drv.enabled(e):
+                    break
+                raised = drv.do(e)
+                o = drv.observe(raised)
+                obs.append(o)
+                if viol is not None:
+                    continue
+                where = "event %d %s" % (i, tev_name(e))
+                if drv.late:
+                    k, what = drv.late[0]
+                    names = {"callback": "its user callback was invoked", "attempt": "it called Tub.getReference",
+                             "watch": "it called notifyOnDisconnect", "timer": "it called callLater"}
+                    if drv.tub_stopped and k not in drv.stop_returned:
+                        viol = Violation("oracle/acts-after-tub-stop", "%s: after Tub.stopService() had returned, Reconnector %d "
+                                         "was still at work: %s" % (where, k, names[what]))
+                    else:
+                        sig = {"callback": "oracle/callback-after-stop", "attempt": "oracle/attempt-after-stop"}.get(
+                            what, "oracle/timer-after-stop")
+                        if k in drv.stop_before_start:
+                            sig = "oracle/stop-before-start-reactivated"
+                        viol = Violation(sig, "%s: after stopConnecting() of Reconnector %d had returned, %s" % (where, k, names[what]))
+                    continue
+                for k, r in enumerate(drv.rcs):
+                    nt = len(drv.timers(k))
+                    n = len(drv.inflight(k)) + len(drv.watched(k)) + nt
+                    quiet_wanted = k in drv.stop_returned or drv.tub_stopped
+                    if quiet_wanted and (nt or r._active):
+                        sig = "oracle/acts-after-tub-stop" if k not in drv.stop_returned else (
+                            "oracle/stop-before-start-reactivated" if k in drv.stop_before_start else "oracle/timer-after-stop")
+                        viol = Violation(sig, "%s: Reconnector %d was told to stop (%s) but has %d retry timers pending and "
+                                         "_active is %r" % (where, k, "stopConnecting" if k in drv.stop_returned else
+                                                            "Tub.stopService", nt, r._active))
+                        break
+                    if r._active and n != 1:
+                        viol = Violation("oracle/activity-count", "%s: active Reconnector %d of the Tub has %d activities "
+                                         "(attempts %d, watched %d, timers %d)" % (where, k, n, len(drv.inflight(k)),
+                                                                                   len(drv.watched(k)), nt))
+                        break
+                    started = r._tub is not None
+                    if drv.tub.running and not drv.shut() and not started and k not in drv.queue() and e[0] != "connectTo":
+                        viol = Violation("oracle/queued-never-started", "%s: the Tub is running, Reconnector %d was never started "
+                                         "and no startConnecting call is queued for it" % (where, k))
+                        break
+                    if drv.tub.running and not drv.shut() and started and k not in drv.stop_returned and not r._active:
+                        viol = Violation("oracle/no-retry", "%s: Reconnector %d was started and never stopped but is not active"
+                                         % (where, k))
+                        break
+        return obs, viol, len(obs)
+    except Exception as e:
+        import traceback
+        return obs, Violation("oracle/exception-in-reconnector", "Tub history raised %s: %s"
+                              % (type(e).__name__, traceback.format_exc()[-700:])), len(obs)
+    finally:
+        drv.close()
+
+
+TUB_RC_EVENTS = [("ok", ()), ("ok", ("stop",)), ("fail",), ("lost",), ("timer",), ("reset",), ("stop",)]
+
+
+def tub_alphabet(nrc, depth=0):
+    out = [("connectTo",), ("startService",), ("stopService",), ("turn",)]
+    for k in range(nrc):
+        for x in TUB_RC_EVENTS:
+            out.append(("rc", k, ("fail", ZS[depth % len(ZS)], depth) if x == ("fail",) else x))
+    return out
+
+
+def dfs_tub(depth, on_node, max_rc=2):
+    def rec(path, n):
+        if n == 0:
+            return
+        nrc = len([e for e in path if e[0] == "connectTo"])
+        for e in tub_alphabet(nrc, len(path)):
+            if e[0] == "connectTo" and nrc >= max_rc:
+                continue
+            p = path + [e]
+            obs, viol, done = run_tub_history(p)
+            if done < len(p):
+                continue
+            on_node(p, obs, viol)
+            if viol is None:
+                rec(p, n - 1)
+    rec([], depth)
